@@ -23,6 +23,9 @@ ENTDECL(sha1) ENTDECL(sha256) ENTDECL(sha512) ENTDECL(md5) ENTDECL(sm3)
 
 #define FAM(alg, fam, lanes, vc) { #fam, _##alg##_ctx_mgr_init_##fam, _##alg##_ctx_mgr_submit_##fam, _##alg##_ctx_mgr_flush_##fam, lanes, vc }
 
+/* the public accessor macros of include/multi_buffer.h, as an application uses them: 0 complete, 1 processing, 2 status, 3 error */
+#define CV(alg, T) static int alg##_cv(void *c, int what) { T *x = c; return what == 0 ? !!isal_hash_ctx_complete(x) : what == 1 ? !!isal_hash_ctx_processing(x) : what == 2 ? (int) isal_hash_ctx_status(x) : (int) isal_hash_ctx_error(x); }
+CV(sha1, ISAL_SHA1_HASH_CTX) CV(sha256, ISAL_SHA256_HASH_CTX) CV(sha512, ISAL_SHA512_HASH_CTX) CV(md5, ISAL_MD5_HASH_CTX) CV(sm3, ISAL_SM3_HASH_CTX)
 static void sha1_ci(void *c) { isal_hash_ctx_init((ISAL_SHA1_HASH_CTX *) c); }
 static void sha256_ci(void *c) { isal_hash_ctx_init((ISAL_SHA256_HASH_CTX *) c); }
 static void sha512_ci(void *c) { isal_hash_ctx_init((ISAL_SHA512_HASH_CTX *) c); }
@@ -41,7 +44,7 @@ static void sm3_ci(void *c) { isal_hash_ctx_init((ISAL_SM3_HASH_CTX *) c); }
         .off_pbuf = offsetof(ISAL_##ALG##_HASH_CTX, partial_block_buffer), \
         .off_num_inuse = offsetof(ISAL_##ALG##_HASH_CTX_MGR, mgr.num_lanes_inuse), \
         .off_ldata = offsetof(ISAL_##ALG##_HASH_CTX_MGR, mgr.ldata), .ldata_stride = sizeof(ISAL_##ALG##_LANE_DATA), .max_lanes = MAXL, \
-        .dbytes = DB, .block = BLK, .wordsz = WS, .be_words = BE, .ctx_init = alg##_ci, \
+        .dbytes = DB, .block = BLK, .wordsz = WS, .be_words = BE, .ctx_init = alg##_ci, .ctx_view = alg##_cv, \
         .i_init = (hi_init_f) isal_##alg##_ctx_mgr_init, .i_submit = (hi_submit_f) isal_##alg##_ctx_mgr_submit, .i_flush = (hi_flush_f) isal_##alg##_ctx_mgr_flush, \
         .l_init = (h_init_f) alg##_ctx_mgr_init, .l_submit = (h_submit_f) alg##_ctx_mgr_submit, .l_flush = (h_flush_f) alg##_ctx_mgr_flush, \
         .entry = { (void *) _##alg##_ctx_mgr_init, (void *) _##alg##_ctx_mgr_submit, (void *) _##alg##_ctx_mgr_flush }
